@@ -116,6 +116,36 @@ func c05Verify1(m *stun.Message, raw []byte, corrupted bool) (outcome, key, deta
 	if corrupted && nFP == 1 && err == nil {
 		return "", "corruption-undetected", fmt.Sprintf("corrupted message passes the fingerprint check: %x", clip(raw))
 	}
+	// clones of the message verify exactly like it: a plain clone, one made from inside a ForEach callback (where
+	// the source's attribute list is narrowed), and one made from a source whose Raw was refilled but not decoded yet
+	clones := []*stun.Message{new(stun.Message), new(stun.Message), new(stun.Message)}
+	cerr := []error{m.CloneTo(clones[0]), nil, nil}
+	called := false
+	if len(m.Attributes) > 0 {
+		_ = m.ForEach(m.Attributes[len(m.Attributes)-1].Type, func(mm *stun.Message) error {
+			if !called {
+				called = true
+				cerr[1] = mm.CloneTo(clones[1])
+			}
+			return nil
+		})
+	}
+	if !called {
+		cerr[1] = m.CloneTo(clones[1])
+	}
+	src := new(stun.Message)
+	_, _ = src.Write(c01Big)
+	src.Raw = append(src.Raw[:0], raw...)
+	cerr[2] = src.CloneTo(clones[2])
+	for i, cl := range clones {
+		how := []string{"CloneTo", "CloneTo from inside a ForEach callback", "CloneTo from a source whose Raw was refilled and not decoded"}[i]
+		if cerr[i] != nil || !bytes.Equal(cl.Raw, raw) {
+			return "", "clone-differs", fmt.Sprintf("%s: err %v, Raw equal %v: %x", how, cerr[i], bytes.Equal(cl.Raw, raw), clip(raw))
+		}
+		if cerr2 := stun.Fingerprint.Check(cl); (cerr2 == nil) != want {
+			return "", "clone-verdict-differs", fmt.Sprintf("%s: Fingerprint.Check on the clone = %v, on the message %v (RFC verdict %v): %x", how, cerr2, err, want, clip(raw))
+		}
+	}
 	switch {
 	case err == nil:
 		return "pass", "", ""
@@ -138,6 +168,8 @@ func init() {
 			for l := 0; l <= 5; l++ {
 				beforeOpts = append(beforeOpts, c04Attr{0x0006, l})
 			}
+			// attribute types one bit apart that the decoder treats as the same attribute (0x0020 / legacy 0x8020)
+			beforeOpts = append(beforeOpts, c04Attr{0x0020, 8}, c04Attr{0x8020, 8})
 			tid := [12]byte{0xca, 0xfe, 1, 2, 3, 4, 5, 6, 7, 8, 9, 10}
 			m := new(stun.Message)
 			var idx int64
